@@ -39,6 +39,8 @@ func classMember(cls string, rng *rand.Rand) byte {
 		return byte('A' + rng.Intn(6))
 	case "blank":
 		return []byte{' ', '\t', '\r', '\n'}[rng.Intn(4)]
+	case "lowctl":
+		return []byte{0, 1, 0x0c, 0x1f, 0x0b, '%', '(', '<', '/', '{'}[rng.Intn(10)]
 	}
 	for {
 		b := byte(rng.Intn(256))
@@ -110,78 +112,82 @@ func renderEexec(v *eexecVec, rng *rand.Rand) ([]byte, error) {
 	if err != nil {
 		return nil, err
 	}
-	// the four lead bytes: cipher bytes are chosen, the plaintext lead follows from them
-	var lead []byte // cipher bytes
-	var leadChars []byte
-	if v.Form == "bin" {
-		for _, c := range v.Lead {
-			lead = append(lead, classMember(c, rng))
-		}
-	} else {
-		for _, c := range v.Lead {
-			leadChars = append(leadChars, classMember(c, rng))
-		}
-		lead = []byte{hexNibble(leadChars[0])<<4 | hexNibble(leadChars[1]), hexNibble(leadChars[2])<<4 | hexNibble(leadChars[3]),
-			byte(rng.Intn(256)), byte(rng.Intn(256))}
-	}
-	ciph := indep.Cipher{R: indep.R0Eexec}
-	for _, c := range lead {
-		ciph.Dec(c) // advances the key by the chosen cipher bytes
-	}
-	cipher := append([]byte{}, lead...)
-	for _, p := range plain {
-		cipher = append(cipher, ciph.Enc(p))
-	}
-	if v.Form == "bin" {
-		out = append(out, cipher...)
-	} else {
-		digits := make([]byte, 0, 2*len(cipher))
-		for i, c := range cipher {
-			for k, nib := range []byte{c >> 4, c & 15} {
-				idx := 2*i + k
-				if idx < 4 {
-					digits = append(digits, leadChars[idx])
-					continue
-				}
-				upper := v.Form == "hexupper" || v.Form == "hexmixed" && rng.Intn(2) == 0
-				if upper {
-					digits = append(digits, "0123456789ABCDEF"[nib])
-				} else {
-					digits = append(digits, "0123456789abcdef"[nib])
-				}
+	// encSection lays out one encrypted section (lead bytes, cipher text in the vector's form)
+	encSection := func(plain []byte) {
+		// the four lead bytes: cipher bytes are chosen, the plaintext lead follows from them
+		var lead []byte // cipher bytes
+		var leadChars []byte
+		if v.Form == "bin" {
+			for _, c := range v.Lead {
+				lead = append(lead, classMember(c, rng))
 			}
+		} else {
+			for _, c := range v.Lead {
+				leadChars = append(leadChars, classMember(c, rng))
+			}
+			lead = []byte{hexNibble(leadChars[0])<<4 | hexNibble(leadChars[1]), hexNibble(leadChars[2])<<4 | hexNibble(leadChars[3]),
+				byte(rng.Intn(256)), byte(rng.Intn(256))}
 		}
-		for i, d := range digits {
-			// white space only after the first four digits
-			if i >= 4 {
-				switch v.Ws {
-				case "every2":
-					if i%2 == 0 {
-						out = append(out, ' ')
+		ciph := indep.Cipher{R: indep.R0Eexec}
+		for _, c := range lead {
+			ciph.Dec(c) // advances the key by the chosen cipher bytes
+		}
+		cipher := append([]byte{}, lead...)
+		for _, p := range plain {
+			cipher = append(cipher, ciph.Enc(p))
+		}
+		if v.Form == "bin" {
+			out = append(out, cipher...)
+		} else {
+			digits := make([]byte, 0, 2*len(cipher))
+			for i, c := range cipher {
+				for k, nib := range []byte{c >> 4, c & 15} {
+					idx := 2*i + k
+					if idx < 4 {
+						digits = append(digits, leadChars[idx])
+						continue
 					}
-				case "lines64":
-					if i%64 == 0 {
-						out = append(out, '\n')
-					}
-				case "crlf7":
-					if i%7 == 0 {
-						out = append(out, '\r', '\n')
-					}
-				case "tabs3":
-					if i%3 == 0 {
-						out = append(out, '\t', ' ')
-					}
-				case "at4", "at5", "at6", "at7", "at9":
-					var k int
-					fmt.Sscanf(v.Ws, "at%d", &k)
-					if i == k {
-						out = append(out, ' ')
+					upper := v.Form == "hexupper" || v.Form == "hexmixed" && rng.Intn(2) == 0
+					if upper {
+						digits = append(digits, "0123456789ABCDEF"[nib])
+					} else {
+						digits = append(digits, "0123456789abcdef"[nib])
 					}
 				}
 			}
-			out = append(out, d)
+			for i, d := range digits {
+				// white space only after the first four digits
+				if i >= 4 {
+					switch v.Ws {
+					case "every2":
+						if i%2 == 0 {
+							out = append(out, ' ')
+						}
+					case "lines64":
+						if i%64 == 0 {
+							out = append(out, '\n')
+						}
+					case "crlf7":
+						if i%7 == 0 {
+							out = append(out, '\r', '\n')
+						}
+					case "tabs3":
+						if i%3 == 0 {
+							out = append(out, '\t', ' ')
+						}
+					case "at4", "at5", "at6", "at7", "at9":
+						var k int
+						fmt.Sscanf(v.Ws, "at%d", &k)
+						if i == k {
+							out = append(out, ' ')
+						}
+					}
+				}
+				out = append(out, d)
+			}
 		}
 	}
+	encSection(plain)
 	switch v.Trailer {
 	case "zeros":
 		out = append(out, '\n')
@@ -192,6 +198,22 @@ func renderEexec(v *eexecVec, rng *rand.Rand) ([]byte, error) {
 		out = append(out, "cleartomark\n"...)
 	case "tokens":
 		out = append(out, "\n/after 2 def\n"...)
+	case "second":
+		// a second encrypted section in the same stream (two fonts in one file): its
+		// decryption starts from the initial key again
+		out = append(out, "\n/mid 2 def currentfile eexec"...)
+		switch v.Blank {
+		case "sp":
+			out = append(out, ' ')
+		case "lf":
+			out = append(out, '\n')
+		case "crlf":
+			out = append(out, '\r', '\n')
+		default:
+			out = append(out, '\t', ' ', '\n')
+		}
+		encSection([]byte("/c 3 def 5 string currentfile exch readstring \x00\xff\x80ab pop /d exch def mark currentfile closefile\n"))
+		out = append(out, "\n/after2 4 def\n"...)
 	}
 	return out, nil
 }
